@@ -299,6 +299,19 @@ class C17(core.Check):
                             "hdr": [h.hex() for h in hdr], "body": core.b64(body), "frag": frag, "seq": seq, "zh": ctx["zh"],
                             "fd2": 3 if r.random() < 0.15 else None,
                             "loglevel": 0 if (cls in ("boundary-long", "boundary-metachar", "header-malformed") or r.random() < 0.25) and not frag.startswith("n:1") else None})
+            # a part header that never seems to end: more than a megabyte before the blank line (a real range and payload follow), delivered in
+            # transport-sized pieces; the caller clears the error, if any, and carries on / retries / resets
+            if fi < (2 if self.quick else 8):
+                rs = emulate_ranges(p, set(M), limit) or [[p.header_len, len(B) - 1]]
+                good_b = b"zckBOUNDARY42"
+                padn = r.choice([1100000, 1300000, 2200000])
+                body = bytearray(b"\r\n--" + good_b + b"\r\nX-Trace: " + b"t" * padn + b"\r\n")
+                a_, b_ = rs[0]
+                body += b"Content-Range: bytes %d-%d/%d\r\n\r\n" % (a_, b_, len(B)) + B[a_:b_ + 1] + b"\r\n--" + good_b + b"--\r\n"
+                hdr = [b"HTTP/1.1 206 Partial Content\r\n", b"Content-Type: multipart/byteranges; boundary=" + good_b + b"\r\n", b"\r\n"]
+                for seq in (["clear"], ["clear", "retry"], ["retry"]):
+                    out.append({"name": "f%d" % fi, "B": core.b64(B), "T0": core.b64(bytes(T0)), "M": M, "limit": limit, "cls": "part-header-over-1MiB", "hdr": [h.hex() for h in hdr],
+                                "body": core.b64(bytes(body)), "frag": "n:16384", "seq": seq, "zh": ctx["zh"], "fd2": None, "loglevel": None})
         return out
 
     def post(self, verdicts, ctx):
